@@ -17,6 +17,7 @@ OUT = os.environ.get("VERIF_OUT") or VERIF                                    # 
 
 
 SURVEY = bool(os.environ.get("VERIF_SURVEY"))
+ONLY_PARTS = [x for x in (os.environ.get("VERIF_PARTS") or "").split(",") if x]   # triage aid: run only these parts (never set by a registered check)
 
 
 PRLIMIT = shutil.which("prlimit")
@@ -62,6 +63,13 @@ class Driver:
 
     def stop(self):
         if self.proc is not None:
+            if os.environ.get("VERIF_GRACEFUL") and self.proc.poll() is None:
+                # coverage runs (tools/coverage.sh): let the process end by itself at end of input so that it writes its profile
+                try:
+                    self.proc.stdin.close()
+                    self.proc.wait(timeout=10)
+                except Exception:
+                    pass
             try:
                 self.proc.kill()
                 self.proc.wait(timeout=5)
@@ -452,6 +460,8 @@ class Ctx:
     def forall(self, part, n, batch=200):
         """n generated cases; batched round trips; first unexplained failure is shrunk and reported."""
         self.register(part)
+        if ONLY_PARTS and part.name not in ONLY_PARTS:
+            return 0
         rnd = self.rng(part.name)
         done = 0
         n = self.share(n)
@@ -521,6 +531,8 @@ class Ctx:
     def enumerate(self, part, cases, batch=500, name=None, exhaustive=False):
         """Deterministic enumeration (shortest/simplest first, so the first failure is minimal)."""
         self.register(part)
+        if ONLY_PARTS and part.name not in ONLY_PARTS:
+            return 0
         buf = []
         total = 0
 
